@@ -1263,6 +1263,52 @@ class Interp(seq_detached.DetachedMixin, S.SeqRun):
             return
         self._probe_pk(objs[a % len(objs)])
 
+    def op_r_proxy(self, a, b, c):
+        """EntityProxy (make_proxy): made from an object once, kept by the program across operations and
+        sessions, dereferenced later - it has to yield the object the *current* session holds for that primary
+        key (C11 lists proxies among the access paths), or ObjectNotFound when there is none"""
+        if not hasattr(self, 'proxies'):
+            self.proxies = {}
+        objs = sorted((o for o in self.view.objs.values() if o.pk is not None and (o.stored or not o.deleted)),
+                      key=lambda o: o.mid)
+        if not objs:
+            return
+        mo = objs[a % len(objs)]
+        key = (mo.ent, mo.pk)
+        if key not in self.proxies:
+            if mo.deleted:
+                return
+            h = self.handle_or_poison(mo.mid)
+            self.proxies[key] = core.make_proxy(h)
+            self.probe('proxy_made')
+            if b % 2:
+                return
+        proxy = self.proxies[key]
+        what = 'r_proxy proxy of %s%r' % (mo.ent, mo.pk)
+        holders = [o for o in self.view.live(mo.ent) if o.pk == mo.pk]
+        e = self.schema.by_name[mo.ent]
+        if not holders and any(x.is_rel for x in e.pk_attrs):
+            return      # (see _probe_pk: a raw key that is a reference plants an unverified seed)
+        ok, got = self.read(what, lambda: proxy._get_object(), exp_exc=core.ObjectNotFound)
+        self.probe('proxy_dereferenced')
+        if not holders:
+            if ok and got._status_ not in ('deleted', 'cancelled', 'marked_to_delete'):
+                self.viol('C10', 'deleted-object-still-found', mo.ent, '%s returned an object the session deleted' % what)
+            elif ok:
+                # the proxy hands out the object deleted in this session (Entity[pk] raises ObjectNotFound for it);
+                # every use of that object raises, and it is the one object of that key: an observation, not C11
+                self.probe('obs_proxy_returns_object_deleted_in_session')
+            return
+        if not ok:
+            self.viol('C10', 'object-not-found', mo.ent, '%s raised ObjectNotFound for an object present in the view' % what)
+            return
+        tgt = holders[-1]
+        th = self.handle_or_poison(tgt.mid)
+        if got is not th:
+            self.viol('C11', 'proxy-returned-other-object', mo.ent,
+                      '%s returned %r (status %s), a different Python object than the one the session holds for that key '
+                      '(%r, status %s)' % (what, got, got._status_, th, th._status_))
+
     def _probe_pk(self, mo):
         e = self.schema.by_name[mo.ent]
         P = self.E[mo.ent]
@@ -1888,6 +1934,8 @@ class Interp(seq_detached.DetachedMixin, S.SeqRun):
             self.op_r_attr(a, b, c)
         elif name == 'r_pk':
             self.op_r_pk(a, b, c)
+        elif name == 'r_proxy':
+            self.op_r_proxy(a, b, c)
         elif name == 'r_get':
             self.op_r_get(a, b, c)
         elif name == 'r_exists':
